@@ -1050,7 +1050,7 @@ def r139(ctx, R):
             R.ob('R13.9', '%s:stores-as-sent' % impl.qname, okw,
                  'the uuids stored are the ones of the body, untransformed',
                  [src(d)[:40] for d in defs], func=impl, node=s.node)
-    R.count('R13.9', 1 + m, 2)
+    R.count('R13.9', 1 + m, 1)
 
 
 _run_c13d = run
